@@ -362,8 +362,10 @@ func c13Histories(maxLen int) [][]int {
 func c13Scenarios(apiLen, pktLen int) []*concScenario {
 	var l []*concScenario
 	pk := [][]int{{}}
-	for p := range pktNames {
-		pk = append(pk, []int{p})
+	if pktLen >= 1 {
+		for p := range pktNames {
+			pk = append(pk, []int{p})
+		}
 	}
 	if pktLen >= 2 {
 		for p := range pktNames {
@@ -382,7 +384,7 @@ func c13Scenarios(apiLen, pktLen int) []*concScenario {
 
 func c13Run(c *core.Ctx, args []string) {
 	c.Res.Level = "model_checking"
-	c.Res.Rule = "outer enumeration: every API history of length <=2 (thorough <=3) over {StartHunt(t1), StartHunt(t2), StopHunt(t1), StopHunt(t2), Close} on the caller thread x every packet sequence of length <=1 (thorough: <=2 for API length <=2) over 10 ARP packets (requests from hunted and non-hunted hosts, probes with/without/equal offers and off-LAN targets, announcement, reply) on the packet-loop thread; inner: stateless DFS over all schedules (threads, spoof loops, ticker firings in virtual time) up to the deviation bound, followed by two spoof cycles, Close, and two more cycles. A linear-time monitor over the emitted ARP frames and the API call/return log checks confinement, probe-reject conditions, undo on StopHunt (corrective packet within one cycle, no forged packet afterwards), idempotent StartHunt and Close. distinct = distinct observation vectors"
+	c.Res.Rule = "outer enumeration: every API history of length <=2 (thorough <=3) over {StartHunt(t1), StartHunt(t2), StopHunt(t1), StopHunt(t2), Close} on the caller thread x every packet sequence of length <=1 (thorough: <=2 for API length <=2) over 10 ARP packets (requests from hunted and non-hunted hosts, probes with/without/equal offers and off-LAN targets, announcement, reply) on the packet-loop thread; inner: stateless DFS over all schedules (threads, spoof loops, ticker firings in virtual time) up to the deviation bound (one more for the API histories of length <=2 without packets), followed by two spoof cycles, Close, and two more cycles. A linear-time monitor over the emitted ARP frames and the API call/return log checks confinement, probe-reject conditions, undo on StopHunt (corrective packet within one cycle, no forged packet afterwards), idempotent StartHunt and Close. distinct = distinct observation vectors"
 	c.Res.Assumptions = []string{"one forged announcement per loop may still leave after StopHunt returned (the loop had passed its membership check): the property's 'no further' is read per loop cycle", "a StopHunt/StartHunt pair may leave two loops for one target (not constrained by the statement)", "time is virtual: 'within one cycle' is checked on the virtual clock"}
 	apiLen, pktLen, bound := 2, 1, 1
 	if c.Thorough() {
@@ -405,7 +407,32 @@ func c13Run(c *core.Ctx, args []string) {
 		exploreScenario(&sub, "C13", sc, bound)
 		c.Count("scenarios", 1)
 	}
-	c.Res.Bound = fmt.Sprintf("API histories <= %d, packets <= %d, deviation bound %d, clock horizon 16 firings", apiLen, pktLen, bound)
+	// two hunted targets, one of them stopped / everything closed: the loops must not depend on each other
+	for i, api := range [][]int{{0, 1, 2}, {0, 1, 3}, {0, 1, 4}, {1, 0, 2}} {
+		if !c.Mine(i+11) || c.Thorough() { // the thorough tier enumerates every history of length 3 anyway
+			continue
+		}
+		sub := *c
+		sub.Shard, sub.NShards = 0, 1
+		exploreScenario(&sub, "C13", c13Scenario(api, nil), bound)
+		c.Count("scenarios", 1)
+	}
+	// one more deviation for the histories without packets (the races between StartHunt/StopHunt/Close and the loops)
+	deep := c13Scenarios(2, 0)
+	for i, sc := range deep {
+		if !c.Mine(i + 5) {
+			continue
+		}
+		if c.Deadline > 0 && time.Now().Unix() > c.Deadline-30 {
+			c.Cap("time budget: deeper schedules not completed")
+			break
+		}
+		sub := *c
+		sub.Shard, sub.NShards = 0, 1
+		exploreScenario(&sub, "C13", sc, bound+1)
+		c.Count("scenarios_deeper", 1)
+	}
+	c.Res.Bound = fmt.Sprintf("API histories <= %d, packets <= %d, deviation bound %d (%d for the %d API histories of length <= 2 without packets), clock horizon 16 firings", apiLen, pktLen, bound, bound+1, len(deep))
 	c.Res.Counters["states"] = int64(c.DistinctCount())
 	c.Sample(map[string]any{"scenario": "arp[StartHunt(t1),StopHunt(t1)|req(t1->router)]", "schedule": []int{0, 0, 0, 1}}, 4)
 }
